@@ -16,34 +16,35 @@ import (
 )
 
 type World struct {
-	tags      []TagDecl
-	writers   []WritersDecl
-	confined  []ConfinedDecl
-	rparens   map[*ssa.Function]map[token.Pos]token.Pos
-	callTexts map[*ssa.Function]map[token.Pos]string
-	cw        *confineWorld
-	repo      string
-	fset      *token.FileSet
-	prog      *ssa.Program
-	pkgs      []*packages.Package
-	allPkgs   map[string]*packages.Package // by path
-	byName    map[string][]*packages.Package
-	specs     []*SpecFile
-	contracts map[string]*FuncContract // by ssa function key (see fnKey)
-	ifaceC    map[string]*FuncContract // interface method contracts: "pkg.Iface.Method"
-	ghosts    map[string]GhostDecl
-	ufuncs    map[string]UFuncDecl
-	pures     map[string]*PureDecl
-	specTypes map[string][]Binder
-	axioms    []Clause
-	axiomPkg  []string
-	fnByKey   map[string]*ssa.Function
-	modPath   string
-	inlinePkg map[string]bool
-	writeSets map[*ssa.Function]map[string]bool
-	implCache map[string][]types.Type
-	srcCache  map[string][]byte
-	determ    map[string]bool
+	tags         []TagDecl
+	writers      []WritersDecl
+	confined     []ConfinedDecl
+	rparens      map[*ssa.Function]map[token.Pos]token.Pos
+	callTexts    map[*ssa.Function]map[token.Pos]string
+	callTextsExt map[*ssa.Function]map[token.Pos]string // text of the helper bodies called in a call's arguments
+	cw           *confineWorld
+	repo         string
+	fset         *token.FileSet
+	prog         *ssa.Program
+	pkgs         []*packages.Package
+	allPkgs      map[string]*packages.Package // by path
+	byName       map[string][]*packages.Package
+	specs        []*SpecFile
+	contracts    map[string]*FuncContract // by ssa function key (see fnKey)
+	ifaceC       map[string]*FuncContract // interface method contracts: "pkg.Iface.Method"
+	ghosts       map[string]GhostDecl
+	ufuncs       map[string]UFuncDecl
+	pures        map[string]*PureDecl
+	specTypes    map[string][]Binder
+	axioms       []Clause
+	axiomPkg     []string
+	fnByKey      map[string]*ssa.Function
+	modPath      string
+	inlinePkg    map[string]bool
+	writeSets    map[*ssa.Function]map[string]bool
+	implCache    map[string][]types.Type
+	srcCache     map[string][]byte
+	determ       map[string]bool
 }
 
 func (w *World) isRepoPkg(p *types.Package) bool {
@@ -836,6 +837,10 @@ func (w *World) callText(fn *ssa.Function, pos token.Pos) string {
 	m, ok := w.callTexts[fn]
 	if !ok {
 		m = map[token.Pos]string{}
+		if w.callTextsExt == nil {
+			w.callTextsExt = map[*ssa.Function]map[token.Pos]string{}
+		}
+		w.callTextsExt[fn] = map[token.Pos]string{}
 		if syn := fn.Syntax(); syn != nil {
 			var pkg *packages.Package
 			if fn.Pkg != nil {
@@ -844,6 +849,7 @@ func (w *World) callText(fn *ssa.Function, pos token.Pos) string {
 			ast.Inspect(syn, func(n ast.Node) bool {
 				if ce, ok := n.(*ast.CallExpr); ok {
 					txt := w.nodeText(ce)
+					ext := ""
 					// what a helper called in the argument list builds belongs to this call's text as well (an attribute
 					// literal moved into a constructor function)
 					for _, a := range ce.Args {
@@ -866,7 +872,7 @@ func (w *World) callText(fn *ssa.Function, pos token.Pos) string {
 							if fo, ok := obj.(*types.Func); ok {
 								if callee := w.prog.FuncValue(fo); callee != nil && callee.Blocks != nil && w.isRepoPkg(pkgOf(callee)) && callee.Syntax() != nil {
 									if fc := w.contracts[fnKey(callee)]; fc == nil || fc.Flags["inline"] {
-										txt += " /*" + fnKey(callee) + "*/ " + w.nodeText(callee.Syntax())
+										ext += " /*" + fnKey(callee) + "*/ " + w.nodeText(callee.Syntax())
 									}
 								}
 							}
@@ -874,6 +880,9 @@ func (w *World) callText(fn *ssa.Function, pos token.Pos) string {
 						})
 					}
 					m[ce.Lparen] = txt
+					if ext != "" {
+						w.callTextsExt[fn][ce.Lparen] = ext
+					}
 				}
 				return true
 			})
@@ -881,4 +890,10 @@ func (w *World) callText(fn *ssa.Function, pos token.Pos) string {
 		w.callTexts[fn] = m
 	}
 	return m[pos]
+}
+
+// callTextExt: what the helpers called in the argument list of the call at pos build (their source text).
+func (w *World) callTextExt(fn *ssa.Function, pos token.Pos) string {
+	w.callText(fn, pos)
+	return w.callTextsExt[fn][pos]
 }
